@@ -7,7 +7,7 @@ import (
 
 func init() {
 	checks["C15"] = func(run *report.Run) error {
-		run.Rule = "sequences of 1–12 calls of Write, WriteHeader, WriteErrorString, WriteError, WriteServiceError, WriteHeaderAndEntity, WriteEntity, WriteAsJson/Xml, WriteJson, WriteHeaderAndJson/Xml (plus PrettyPrint and SetRequestAccepts) on a real restful.Response: created directly, or by a container for a route function with a trailing filter reading StatusCode()/ContentLength(), or (route-miss, 9 %) by a container for a request that FAILS route selection (404 unknown path / no web service, 405, 406, 415; CurlyRouter or RouterJSR311) where the calls are made by an installed ServiceErrorHandler (any sequence) or by the container's default one (its WriteErrorString, measured by a shadow run) and a container filter reads StatusCode()/ContentLength() after ProcessFilter returned; plain, gzip or deflate CompressingResponseWriter underneath; values nil / string / struct / slice / map / typed nil / ServiceError / unmarshalable (channel, struct ending in a channel), payloads 0–5000 bytes; bottom writer failing from its k-th Write (partial count, permanent or transient; a fresh private error value per failing call, or in 40 % of them one of net/http's, io's, net's own error values: http.ErrBodyNotAllowed, ErrHijacked, ErrContentLength, ErrHandlerTimeout, io.ErrShortWrite, io.ErrClosedPipe, io.EOF, net.ErrClosed, os.ErrDeadlineExceeded — the same value at every failing call — or a fresh error wrapping one) in 55 % of the cases; in 15 % the bottom writer (also) behaves like net/http's: after a status that allows no body (1xx, 204, 304; half of these cases are steered to such a status) every Write returns (0, http.ErrBodyNotAllowed); the recorder beneath the Response names every error value its Write hands up (by identity) and every call's returned error is classified against them (nil / that value / another), so that Spec.c15Holds checks that the failing call returns THE error the underlying writer returned; 80 % of the sequences obey the status discipline by construction, 20 % are free; a case is non-trivial when the underlying writer received at least one call; distinct = distinct (settings, calls, observations) lines"
+		run.Rule = "sequences of 1–12 calls of Write, WriteHeader, WriteErrorString, WriteError, WriteServiceError, WriteHeaderAndEntity, WriteEntity, WriteAsJson/Xml, WriteJson, WriteHeaderAndJson/Xml (plus PrettyPrint and SetRequestAccepts; in 30 % of the sequences also 1–3 changes of the response's header map — Header().Set/Add/Del, AddHeader, direct assignment — mostly a declared Content-Length, in several spellings, larger than / equal to / smaller than what the sequence writes in all, has written so far or writes next, or not an integer; a fifth of those sequences write no body at all) on a real restful.Response: created directly, or by a container for a route function with a trailing filter reading StatusCode()/ContentLength(), or (route-miss, 9 %) by a container for a request that FAILS route selection (404 unknown path / no web service, 405, 406, 415; CurlyRouter or RouterJSR311) where the calls are made by an installed ServiceErrorHandler (any sequence) or by the container's default one (its WriteErrorString, measured by a shadow run) and a container filter reads StatusCode()/ContentLength() after ProcessFilter returned; plain, gzip or deflate CompressingResponseWriter underneath; values nil / string / struct / slice / map / typed nil / ServiceError / unmarshalable (channel, struct ending in a channel), payloads 0–5000 bytes; bottom writer failing from its k-th Write (partial count, permanent or transient; a fresh private error value per failing call, or in 40 % of them one of net/http's, io's, net's own error values: http.ErrBodyNotAllowed, ErrHijacked, ErrContentLength, ErrHandlerTimeout, io.ErrShortWrite, io.ErrClosedPipe, io.EOF, net.ErrClosed, os.ErrDeadlineExceeded — the same value at every failing call — or a fresh error wrapping one) in 55 % of the cases; in 15 % the bottom writer (also) behaves like net/http's: after a status that allows no body (1xx, 204, 304; half of these cases are steered to such a status) every Write returns (0, http.ErrBodyNotAllowed); the recorder beneath the Response names every error value its Write hands up (by identity) and every call's returned error is classified against them (nil / that value / another), so that Spec.c15Holds checks that the failing call returns THE error the underlying writer returned; 80 % of the sequences obey the status discipline by construction, 20 % are free; a case is non-trivial when the underlying writer received at least one call; distinct = distinct (settings, calls, observations) lines"
 		run.Trusted = []string{
 			"encoding/json and encoding/xml: the sizes and number of Write calls of MarshalIndent / Encoder.Encode are measured by a shadow run on a recording writer and handed to the model as data; for a value that does not marshal, which error xml.Encoder.Encode returns when its i-th Write fails (the writer's or its own) is measured by shadow runs on a writer failing from that call",
 			"reference semantics of the underlying writer's status: first WriteHeader wins, first Write fixes 200 (net/http, httptest.ResponseRecorder)",
